@@ -783,7 +783,21 @@ class Folder:
                 emit(l)
                 return
             g = n.generators[i]
-            for item in self.ev(g.iter, l):
+            it = self.ev(g.iter, l)
+            if isinstance(it, ClassRef):
+                if not self.repo.is_enum(it.info):
+                    raise Unfoldable(f"iteration over class {it.info.name}")
+                seen, members = set(), []
+                for m in self.repo.enum_members(it.info).values():   # aliases are not iterated (enum semantics)
+                    if repr(m.value) not in seen:
+                        seen.add(repr(m.value))
+                        members.append(m)
+                it = members
+            try:
+                it = list(it)
+            except TypeError:
+                raise Unfoldable(f"iteration over {type(it).__name__}")
+            for item in it:
                 l2 = dict(l)
                 self.bind(g.target, item, l2)
                 if all(self.ev(c, l2) for c in g.ifs):
